@@ -197,3 +197,99 @@ Proof.
       split; [destruct y; try reflexivity; discriminate|]. split; [apply fdecode64_fencode; assumption|]. split; assumption.
     + rewrite Hs. reflexivity.
 Qed.
+
+(** ** stability: narrowing what was widened gives the pattern back *)
+Lemma rval_neq0 s m e : rval s m e <> 0%R.
+Proof. unfold rval. intros H. apply eq_0_F2R in H. destruct s; discriminate H. Qed.
+
+(** two valid finite values of one format with the same real value are the same value *)
+Lemma valid_unique prec emax s1 m1 e1 s2 m2 e2 :
+  valid_binary prec emax (S754_finite s1 m1 e1) = true -> valid_binary prec emax (S754_finite s2 m2 e2) = true ->
+  rval s1 m1 e1 = rval s2 m2 e2 -> S754_finite s1 m1 e1 = S754_finite s2 m2 e2.
+Proof.
+  intros H1 H2 Hr. cbn [valid_binary] in H1, H2. unfold bounded in H1, H2.
+  apply andb_prop in H1 as [C1 _]. apply andb_prop in H2 as [C2 _].
+  pose proof (canonical_canonical_mantissa prec emax s1 m1 e1 C1) as K1.
+  pose proof (canonical_canonical_mantissa prec emax s2 m2 e2 C2) as K2.
+  pose proof (canonical_unique radix2 (SpecFloat.fexp prec emax) _ _ K1 K2 Hr) as E.
+  injection E as Em Ee. subst e2. destruct s1, s2; cbn in Em; try discriminate Em; injection Em as <-; reflexivity.
+Qed.
+
+(** narrowing what was widened gives the pattern back (every non-NaN binary32 pattern) *)
+Theorem d2s_s2d w : 0 <= w < 2 ^ 32 -> fdecode 23 8 w <> S754_nan -> d2s (s2d w) = Ok w.
+Proof.
+  intros Hw Hn. pose proof (fencode_fdecode 23 8 ltac:(lia) ltac:(lia) w Hw Hn) as Hfe.
+  pose proof (fdecode_valid 23 8 ltac:(lia) ltac:(lia) w) as Hv. change (23 + 1) with 24 in Hv. change (2 ^ (8 - 1)) with 128 in Hv.
+  destruct (fdecode 23 8 w) as [s|s| |s m e] eqn:Hd; [| |congruence|].
+  - unfold s2d. rewrite Hd. unfold d2s. rewrite (fdecode64_fencode (S754_zero s)) by (reflexivity || discriminate). rewrite Hfe. reflexivity.
+  - unfold s2d. rewrite Hd. unfold d2s. rewrite (fdecode64_fencode (S754_infinity s)) by (reflexivity || discriminate). rewrite Hfe. reflexivity.
+  - destruct (s2d_finite_exact w s m e Hd) as (y & _ & Hy & Hval & Hfin).
+    unfold d2s. rewrite Hy. destruct y as [s'|s'| |s' m' e']; try discriminate Hfin.
+    + exfalso. cbn in Hval. symmetry in Hval. exact (rval_neq0 _ _ _ Hval).
+    + change (SF2R radix2 (S754_finite s' m' e')) with (rval s' m' e') in Hval.
+      destruct (spec_round 24 128 s' m' e' ltac:(lia) ltac:(lia)) as [Hv2 Hs]. rewrite Hval in Hs.
+      assert (Hr : rne 24 128 (rval s m e) = rval s m e) by (unfold rne; apply round_generic; [typeclasses eauto|apply valid_generic, Hv]).
+      rewrite Hr in Hs. rewrite Rlt_bool_true in Hs by (apply (valid_lt_emax 24 128); try lia; exact Hv).
+      destruct Hs as (Hx & Hf & _).
+      destruct (SpecFloat.binary_round 24 128 s' m' e') as [s2|s2| |s2 m2 e2] eqn:Hb; try discriminate Hf.
+      * exfalso. cbn in Hx. symmetry in Hx. exact (rval_neq0 _ _ _ Hx).
+      * change (SF2R radix2 (S754_finite s2 m2 e2)) with (rval s2 m2 e2) in Hx.
+        rewrite (valid_unique 24 128 _ _ _ _ _ _ Hv2 Hv Hx). rewrite Hfe. reflexivity.
+Qed.
+
+(** hence: whatever pack("<f") produced for a non-NaN number survives widening and narrowing *)
+Corollary d2s_stable_nonnan b x : d2s b = Ok x -> fdecode 23 8 x <> S754_nan -> d2s (s2d x) = Ok x.
+Proof. intros H Hn. apply d2s_s2d; [exact (d2s_range b x H)|exact Hn]. Qed.
+
+(** the quiet NaN pattern pack("<f") produces for a NaN survives widening and narrowing as well *)
+Lemma nan_pattern_stable sb q : 0 <= sb <= 1 -> 0 <= q < 2 ^ 23 ->
+  let x := sb * 2 ^ 31 + 255 * 2 ^ 23 + Z.lor (2 ^ 22) q in d2s (s2d x) = Ok x.
+Proof.
+  intros Hsb Hq x.
+  pose proof (lor_lt (2 ^ 22) q 23 ltac:(lia) ltac:(lia) Hq) as HL. set (L := Z.lor (2 ^ 22) q) in *.
+  assert (HL0 : L <> 0) by (apply lor_pow2_neq0; lia).
+  assert (Hx : x = sb * 2 ^ (23 + 8) + 255 * 2 ^ 23 + L) by reflexivity.
+  destruct (split_fields 23 8 sb 255 L ltac:(lia) ltac:(lia) HL ltac:(lia) Hsb) as (Hm & _ & Ht & _). rewrite <- Hx in Hm, Ht.
+  assert (Hd : fdecode 23 8 x = S754_nan).
+  { rewrite Hx, fdecode_fields by (try assumption; lia). cbv zeta. change (255 =? 0) with false. change (255 =? 2 ^ 8 - 1) with true. cbv iota.
+    destruct (Z.eqb_spec L 0); [contradiction|reflexivity]. }
+  unfold s2d. rewrite Hd. unfold frac32. rewrite land_ones' by lia. rewrite Hm. change (23 + 8) with 31 in Ht. rewrite Ht.
+  assert (HLs : 0 <= Z.shiftl L 29 < 2 ^ 52).
+  { rewrite Z.shiftl_mul_pow2 by lia. replace (2 ^ 52) with (2 ^ 23 * 2 ^ 29) by reflexivity. nia. }
+  pose proof (lor_lt (2 ^ 51) (Z.shiftl L 29) 52 ltac:(lia) ltac:(lia) HLs) as HL'. set (L' := Z.lor (2 ^ 51) (Z.shiftl L 29)) in *.
+  assert (HL'0 : L' <> 0) by (apply lor_pow2_neq0; lia).
+  assert (Hsg : signbit 52 11 (sb =? 1) = sb * 2 ^ (52 + 11)).
+  { unfold signbit. destruct (Z.eqb_spec sb 1) as [H1|H1]; [rewrite H1; lia|]. assert (H0 : sb = 0) by lia. rewrite H0. lia. }
+  rewrite Hsg. set (y := sb * 2 ^ (52 + 11) + 2047 * 2 ^ 52 + L').
+  destruct (split_fields 52 11 sb 2047 L' ltac:(lia) ltac:(lia) HL' ltac:(lia) Hsb) as (Hm2 & _ & Ht2 & _). fold y in Hm2, Ht2.
+  assert (Hd2 : fdecode 52 11 y = S754_nan).
+  { unfold y. rewrite fdecode_fields by (try assumption; lia). cbv zeta. change (2047 =? 0) with false. change (2047 =? 2 ^ 11 - 1) with true. cbv iota.
+    destruct (Z.eqb_spec L' 0); [contradiction|reflexivity]. }
+  unfold d2s. rewrite Hd2. unfold frac64. rewrite land_ones' by lia. rewrite Hm2. change (52 + 11) with 63 in Ht2. rewrite Ht2.
+  f_equal. unfold x.
+  assert (Hs2 : signbit 23 8 (sb =? 1) = sb * 2 ^ 31).
+  { unfold signbit. destruct (Z.eqb_spec sb 1) as [H1|H1]; [rewrite H1; reflexivity|]. assert (H0 : sb = 0) by lia. rewrite H0. reflexivity. }
+  rewrite Hs2.
+  assert (Hsh : Z.shiftr L' 29 = L).
+  { unfold L'. rewrite Z.shiftr_lor. rewrite Z.shiftr_shiftl_l by lia. change (29 - 29) with 0. rewrite Z.shiftl_0_r.
+    change (Z.shiftr (2 ^ 51) 29) with (2 ^ 22). unfold L. rewrite Z.lor_assoc, Z.lor_diag. reflexivity. }
+  rewrite Hsh. assert (Hid : Z.lor (2 ^ 22) L = L) by (unfold L; rewrite Z.lor_assoc, Z.lor_diag; reflexivity).
+  rewrite Hid. reflexivity.
+Qed.
+
+Theorem d2s_image_stable b x : d2s b = Ok x -> d2s (s2d x) = Ok x.
+Proof.
+  intros H. destruct (fdecode 23 8 x) eqn:Hdx; try (apply (d2s_stable_nonnan b x H); rewrite Hdx; discriminate).
+  (* x decodes to NaN: b was a NaN (a rounded finite value is never NaN) *)
+  unfold d2s in H. destruct (fdecode 52 11 b) as [s|s| |s m e] eqn:Hd.
+  - apply Ok_inj in H. subst x. rewrite (fdecode32_fencode (S754_zero s)) in Hdx by (reflexivity || discriminate). discriminate.
+  - apply Ok_inj in H. subst x. rewrite (fdecode32_fencode (S754_infinity s)) in Hdx by (reflexivity || discriminate). discriminate.
+  - apply Ok_inj in H. subst x. pose proof (frac_shift b) as Hf.
+    destruct (signbit_range 23 8 (Z.testbit b 63)) as [E|E]; rewrite E.
+    + exact (nan_pattern_stable 0 _ ltac:(lia) Hf).
+    + change (2 ^ (23 + 8)) with (1 * 2 ^ 31). exact (nan_pattern_stable 1 _ ltac:(lia) Hf).
+  - exfalso. destruct (spec_round 24 128 s m e ltac:(lia) ltac:(lia)) as [Hv _].
+    pose proof (round_not_nan 24 128 s m e ltac:(lia) ltac:(lia)) as Hnn.
+    destruct (SpecFloat.binary_round 24 128 s m e) as [s'|s'| |s' m' e'] eqn:Hbr; try discriminate H; try congruence;
+      apply Ok_inj in H; subst x; rewrite fdecode32_fencode in Hdx by (assumption || discriminate); discriminate.
+Qed.
